@@ -9,27 +9,49 @@ SRC = ["h/h_c04.c", "h/h_vmerr.c", "wrap/w_vmerr_simulate.c", "wrap/w_vmerr_errc
 STEM = ["simulate.c", "error_context.c"]
 JOBS = int(os.environ.get("VERIF_JOBS", "16"))
 
-# MaxEvaluationCost, MaxCallDepth, StackSize, MaxArraySize=MaxMappingSize, MaxStringLength, MaxBufferSize
-GRID = [(400, 60), (12, 6), (80, 40), (64, 8), (200, 32), (64, 16)]
+# MaxEvaluationCost, MaxCallDepth, StackSize, MaxArraySize, MaxStringLength, MaxBufferSize, MaxMappingSize
+GRID = [(400, 60), (12, 6), (80, 40), (64, 8), (200, 32), (64, 16), (64, 8)]
+# behaviour of the master's error_handler(): plain log | evaluates a catch that catches nothing | catch(error()) + a successful catch |
+# sprintf("%O") (the driver safe_apply()s object_name())
+MASTERS = ["catchok", "catch", "objname"]
 
 
 def configs(tier):
+    """list of (limits tuple, master mode)"""
     base = tuple(g[0] for g in GRID)
+    out = []
     if tier == "quick":
-        out = [base]
+        out.append((base, "plain"))
         for i in range(len(GRID)):
-            c = list(base); c[i] = GRID[i][1]; out.append(tuple(c))
+            c = list(base); c[i] = GRID[i][1]
+            if i == 3: c[6] = min(c[6], c[3])        # a mapping limit above the array limit adds nothing
+            out.append((tuple(c), "plain"))
+        for m in MASTERS:
+            out.append((base, m))
+        c = list(base); c[1] = GRID[1][1]; c[2] = GRID[2][1]
+        out.append((tuple(c), "catchok"))
         return out
-    return [tuple(c) for c in itertools.product(*GRID)]
+    for c in itertools.product(*GRID):
+        if c[6] > c[3]: continue
+        out.append((tuple(c), "plain"))
+    for m in MASTERS:
+        for e in GRID[0]:
+            for d in GRID[1]:
+                for k in GRID[2]:
+                    out.append(((e, d, k) + base[3:], m))
+    return out
 
 
 def build(ck):
     return {"h_c04": ck.harness("h_c04", SRC, profile="asan", replace_stem=STEM)}
 
 
-RULE = ("configurations = MaxEvaluationCost {60,400} x MaxCallDepth {6,12} x StackSize {40,80} x MaxArraySize=MaxMappingSize {8,64} x "
-        "MaxStringLength {32,200} x MaxBufferSize {16,64} (quick: the base configuration and the 6 one-factor changes; thorough: all 64), "
-        "each a separate boot; programs (288 per configuration): 8 loop forms (while(1), for(;;), do-while, while(i--), for with constant / "
+RULE = ("configurations = MaxEvaluationCost {60,400} x MaxCallDepth {6,12} x StackSize {40,80} x MaxArraySize {8,64} x MaxStringLength {32,200} x "
+        "MaxBufferSize {16,64} x MaxMappingSize {8,64} (<= MaxArraySize) with a plainly logging master, plus master error_handler() behaviours "
+        "{evaluates a catch that catches nothing, catch(error()) and a successful catch, sprintf(\"%O\") = safe_apply of object_name()} x "
+        "MaxEvaluationCost x MaxCallDepth x StackSize (quick: base, the 7 one-factor changes, the 3 master behaviours on the base and one on "
+        "the small stacks = 12 boots; thorough: 96 + 24 = 120 boots), "
+        "each a separate boot; programs (about 640 per configuration): 8 loop forms (while(1), for(;;), do-while, while(i--), for with constant / "
         "local bound, nested foreach over array / mapping) x 7 bodies (empty, call, catch(expr), catch{block}, efun with callback, "
         "catch of an endless loop, call_other); catch nestings 1..3 around an endless loop, a loop after a caught one, while(1) around "
         "catch(catch(loop)); endless recursion: direct, mutual, 3-cycle, through local/functional/anonymous/efun/bound function pointers, "
@@ -40,7 +62,14 @@ RULE = ("configurations = MaxEvaluationCost {60,400} x MaxCallDepth {6,12} x Sta
         "save/restore_variable, allocate*, explode, map/filter/sort/unique, keys/values, call_other on an array, all_inventory, children, "
         "mapping insert by index, m+m, m+=m, m*m, buffer +, literal aggregates of 70) each in a 9-step doubling or +1 loop that crosses "
         "the limit, once plain and once with every step inside a catch; refused mapping insert / array append repeated 1,2,3,4,8,16,32 "
-        "times inside catch followed by a full consistency check of the container.  Monitor (hook H1) at EVERY instruction boundary: "
+        "times inside catch followed by a full consistency check of the container; further builders: int/float += string (local, global, array "
+        "element), read_buffer() of a buffer, set_bit, strwrap, restore_variable() of a generated array / mapping text, unique_mapping() "
+        "and unique_array() of an array with 2n distinct elements, map/filter/copy of a mapping; argument lists merged by the driver "
+        "(call_other(ob, ({fn, args...})) on an object and on an array, local and efun funptrs with 15..120 bound args); family "
+        "'stack-edge': the value stack is filled by the arguments of one call to every distance -12..+16 slots around StackSize and then "
+        "one of 10 sites pushes/reserves 10 values at once (callee with 10 locals, F_PUSH, spread, call_other array args, bound funptr "
+        "args, efun callback extra args, call_other on an array, aggregate, catch of the first two); catch-recursion started 0/1/2 frames "
+        "deeper (parity of the depth limit), wide frames / spread recursion inside catch, catch(f(allocate(N)...)).  Monitor (hook H1) at EVERY instruction boundary: "
         "instructions <= 3 x MaxEvaluationCost, control frames <= MaxCallDepth, sp inside the configured StackSize, size of the value on top of the stack; "
         "at the end every value reachable from the object's variables and the return value; a limit error raised (recorded inside "
         "error_handler()) while code after the outermost catch still runs = catch swallowed it; abort at 20 x the bound = runaway")
@@ -50,6 +79,10 @@ ASSUME = ["the program under test is compiled and create()d with a large budget;
           "sizes are checked for the value on top of the stack at every instruction boundary and for everything reachable at the end of "
           "the evaluation, not for values buried deeper in the stack in between",
           "class instances have no configured size limit",
+          "the instruction bound counts the program's instructions; what the master's error_handler() executes while an error is reported "
+          "is paid from the budgets the driver re-arms for it (the 20x runaway stop counts everything)",
+          "a limit error raised while the innermost error context is one of the driver's own safe_apply() calls (the master's object_name() "
+          "under sprintf(\"%O\") in the master's error_handler()) is contained by that call by design and does not count as swallowed by catch",
           "on the stack only values of the running function's own frame are judged: scratch buffers an efun parks below its callback's frame "
           "(filter()'s flag string) are not LPC values",
           "the text of a driver error message (the value catch yields) is not judged against MaxStringLength: it is not built by an operator or efun"]
@@ -58,18 +91,18 @@ ASSUME = ["the program under test is compiled and create()d with a large budget;
 def fix_replays(ck):
     for key, info in ck.fails.items():
         lines = (info["record"].get("desc") or "").split("\n")
-        if len(lines) >= 2 and lines[0].startswith("prog=") and lines[1].startswith("conf="):
-            info["args"] = ["--" + lines[1], "--" + lines[0]]
+        if len(lines) >= 3 and lines[0].startswith("prog=") and lines[1].startswith("conf=") and lines[2].startswith("master="):
+            info["args"] = ["--" + lines[1], "--" + lines[2], "--" + lines[0]]
             info["fail"]["index"] = 0
 
 
 def run(ck):
     exe = build(ck)["h_c04"]
     cs = configs(ck.tier)
-    per = 20 if ck.tier == "quick" else 30
-    for c in cs:
-        tag = "c" + "-".join(str(x) for x in c)
-        ck.enum(exe, ["--conf=" + ",".join(str(x) for x in c)], tag, batch=8, deadline_s=per, jobs=JOBS, timeout_ms=60000)
+    per = 30 if ck.tier == "quick" else 40
+    for c, m in cs:
+        tag = "c" + "-".join(str(x) for x in c) + ("" if m == "plain" else "-master-" + m)
+        ck.enum(exe, ["--conf=" + ",".join(str(x) for x in c), "--master=" + m], tag, batch=8, deadline_s=per, jobs=JOBS, timeout_ms=60000)
     fix_replays(ck)
     cov = vlib.enum_coverage(ck.parts, RULE, "evaluations_run",
                              extra={"configurations": len(cs),
